@@ -94,6 +94,9 @@ let show_struct (id : string) (sd : sdesc) =
     Printf.printf "E\t%s\tfield\t%s\t%d\t%s\t%s\t%s\n" id (string_of_big_n sd.sd_crc) i (hx f.f_name)
       (hex_of_string (show_kv (f.f_kind, f.f_vec))) (if tag = "" then "-" else tag)) sd.sd_fields
 
+(* Go method name -> parameters of the schema function (set per schema before show_output) *)
+let method_params : (string * param list) list ref = ref []
+
 let show_output (id : string) (o : output) =
   List.iter (fun e ->
     List.iter (fun ((cn, txt), crc) ->
@@ -110,6 +113,16 @@ let show_output (id : string) (o : output) =
       | APositional [] -> ""
       | APositional l -> String.concat ";" (List.map show_kv l) in
     Printf.printf "E\t%s\tmethod\t%s\t%s\t%s\n" id (hx m.m_name) (hex_of_string args) (hex_of_string (show_kv m.m_result))) o.o_methods;
+  (* what a call of each generated method hands to MakeRequest: Params type, id, argument -> field *)
+  List.iter (fun (sd, m) ->
+    let map = match m.m_args with
+      | ANone -> "-"
+      | AParams _ -> "ptr"
+      | APositional _ ->
+        let call = gen_call goify (try List.assoc (utf8_of_runes m.m_name) !method_params with Not_found -> []) in
+        let pairs = List.mapi (fun fi (_, a) -> match a with Some j -> Printf.sprintf "%d>%d" (int_of_nat j) fi | None -> Printf.sprintf "?>%d" fi) call in
+        (match List.sort compare pairs with [] -> "-" | l -> String.concat "," l) in
+    Printf.printf "E\t%s\tcall\t%s\t%s\t%s\t%s\n" id (hx m.m_name) (hx sd.sd_name) (string_of_big_n sd.sd_crc) map) o.o_methods;
   let (st, en) = o.o_init in
   Printf.printf "E\t%s\tinit\t%s\t%s\n" id
     (match st with [] -> "-" | l -> String.concat "," (List.map hx l))
@@ -140,6 +153,7 @@ let run_schema (id : string) (text : string) =
       let wg = wf_gen goify s in
       let nk = names_ok goify s in
       Printf.printf "E\t%s\tsubset\t%s\t%s\t%s\n" id (b01 wf) (b01 wg) (b01 nk);
+      method_params := List.map (fun m -> (utf8_of_runes (goify m.d_name true), m.d_params)) s.s_methods;
       let o1 = generate goify isort_defs isort_strs (fun g -> g) s in
       let o2 = generate goify isort_defs isort_strs List.rev s in
       (match o1 with
